@@ -10,9 +10,9 @@ PLAN = {
     "C01": dict(mc_q=[("single", 3, 4), ("singlenil", 2, 4), ("singlecancel", 2, 4), ("flowerr", 2, 3)],
                 mc_t=[("single", 5, 4), ("singlenil", 3, 4), ("singleeres", 3, 4), ("singlecancel", 3, 4), ("flowerr", 2, 4), ("flow2", 1, 5), ("flowcancel", 2, 4)],
                 gen_q=("single,plain,err,cancel", 120), gen_t=("single,plain,err,nest,cancel,cancelenum", 2500)),
-    "C02": dict(mc_q=[("single", 3, 4), ("singlecancel", 2, 4)],
-                mc_t=[("single", 6, 4), ("singlecancel", 3, 4), ("flowerr", 2, 4)],
-                gen_q=("single,plain,err", 200), gen_t=("single,plain,err", 5000)),
+    "C02": dict(mc_q=[("single", 3, 4), ("singlecancel", 2, 4), ("flowretry", 1, 5)],
+                mc_t=[("single", 6, 4), ("singlecancel", 3, 4), ("flowerr", 2, 4), ("flowretry", 1, 6)],
+                gen_q=("single,plain,err,flowretry", 150), gen_t=("single,plain,err,flowretry", 4000)),
     "C03": dict(mc_q=[("flow2", 1, 4), ("rerun", 1, 4), ("flow2empty", 1, 3)],
                 mc_t=[("flow2", 1, 6), ("rerun", 1, 5), ("flow2empty", 1, 5), ("nest", 1, 3)],
                 gen_q=("plain,nest", 200), gen_t=("plain,nest,err", 4000)),
